@@ -87,16 +87,19 @@ var (
 )
 
 func vhResetPacks() {
+	vreg.Mu.Lock()
+	defer func() { vreg.Mu.Unlock(); vreg.Reset() }()
 	vhNextOpId = 0
 	vhPacks = map[string]*vhPackRec{}
 	vhByOpp = map[*operationPack]*vhPackRec{}
 	vhNextTok = 0
-	vreg.Reset()
 }
 
 // vhNewPack registers an opaque blob for (ops, author) with a fresh symbolic id that is
 // distinct from every id registered so far (SHA-256 collision freeness).
 func vhNewPack(ops []Operation, author identity.Interface) *vhPackRec {
+	vreg.Mu.Lock()
+	defer vreg.Mu.Unlock()
 	vhNextTok++
 	tok := fmt.Sprintf("\"vhblob:%d\"", vhNextTok)
 	id := rt.NondetStringN(2)
@@ -111,7 +114,9 @@ func vhNewPack(ops []Operation, author identity.Interface) *vhPackRec {
 
 // unmarshallPack (M-PACK read side): what the registered blob decodes to.
 func unmarshallPack(def Definition, resolvers entity.Resolvers, data []byte) ([]Operation, identity.Interface, error) {
+	vreg.Mu.Lock()
 	rec, ok := vhPacks[string(data)]
+	vreg.Mu.Unlock()
 	if !ok || rec.bad {
 		return nil, nil, fmt.Errorf("vh: undecodable pack")
 	}
@@ -145,10 +150,14 @@ func unmarshallPack(def Definition, resolvers entity.Resolvers, data []byte) ([]
 // MarshalJSON (M-PACK write side): the serialisation of a pack is an opaque blob that
 // remembers the pack; repeated serialisation of the same pack gives the same bytes.
 func (opp *operationPack) MarshalJSON() ([]byte, error) {
+	vreg.Mu.Lock()
 	rec, ok := vhByOpp[opp]
+	vreg.Mu.Unlock()
 	if !ok {
 		rec = vhNewPack(opp.Operations, opp.Author)
+		vreg.Mu.Lock()
 		vhByOpp[opp] = rec
+		vreg.Mu.Unlock()
 	}
 	return []byte(rec.token), nil
 }
@@ -325,8 +334,11 @@ func IdOperation(op Operation, base *OpBase) entity.Id {
 		panic("op's id not set")
 	}
 	if base.id == entity.UnsetId {
+		vreg.Mu.Lock()
 		vhNextOpId++
-		base.id = entity.Id(fmt.Sprintf("%08x%056x", 0xd0000000+vhNextOpId, 0))
+		n := vhNextOpId
+		vreg.Mu.Unlock()
+		base.id = entity.Id(fmt.Sprintf("%08x%056x", 0xd0000000+n, 0))
 	}
 	return base.id
 }
